@@ -4,6 +4,7 @@
   sampled by the harness; what is proved here is the arithmetic and the grammar.
 -/
 import ConnectModel.Timeout
+import ConnectModel.HandlerSide
 import ConnectProofs.Lemmas.Timeout
 
 namespace ConnectModel.C10
@@ -235,7 +236,28 @@ theorem connect_malformed (s : Bytes) (hne : s ≠ []) (h : s.length > 10 ∨ pa
 theorem no_header_no_deadline : grpcParseTimeout [] = .noTimeout ∧ connectParseTimeout [] = .noTimeout := by
   constructor <;> rfl
 
+/-! ### a deadline that has passed on arrival (unary handlers) -/
+
+/-- **expired_never_runs**: a timeout header that parses to a duration ≤ 0 (`0`, `-5`, `0S`)
+    is not an extension of the caller's deadline: the unary gate refuses to run the user
+    function and the call fails with `deadline_exceeded`. -/
+theorem expired_never_runs (p : Proto) (h : Bytes) (n : Int) (hn : n ≤ 0)
+    (hp : handlerParseTimeout p h = .ok n) : unaryGate p h = some codeDeadlineExceeded := by
+  simp [unaryGate, expiredOnArrival, hp, hn]
+
+/-- … and a deadline in the future, or none, lets it run -/
+theorem unexpired_runs (p : Proto) (h : Bytes)
+    (hp : ∀ n : Int, handlerParseTimeout p h = .ok n → 0 < n) : unaryGate p h = none := by
+  unfold unaryGate expiredOnArrival
+  cases ht : handlerParseTimeout p h with
+  | ok n => have := hp n ht; simp [Int.not_le.mpr this]
+  | noTimeout => simp
+  | invalid => simp
+
 /-! non-vacuity -/
+example : unaryGate .connect [45, 53] /- "-5" -/ = some 4 := by decide
+example : unaryGate .grpc [48, 83] /- "0S" -/ = some 4 := by decide
+example : unaryGate .connect [53] = none := by decide
 example : connectParseTimeout [49, 50] = .ok 12000000 := by decide
 example : grpcParseTimeout [57, 57, 57, 57, 57, 57, 57, 57, 72] /- 99999999H -/ = .noTimeout := by decide
 
